@@ -12,7 +12,10 @@ QuatShapes  == {"v3", "v4", "v2", "v5", "m1x4", "scalar", "empty"}          \* f
 ArrayShapes == {"N3", "N4", "N2", "v4", "N5", "NxNx4"}                       \* for QuaternionArray(...)
 Fills       == {"finite", "zero", "nan", "inf", "string", "none-entry"}
 ArrayFills  == Fills \cup {"one-zero-row", "one-nan-row"}
-Decades     == {-100, -30, -12, -8, 0, 8, 30, 100}
+(* magnitude classes: 10^d for the decades, and the two codes 1 / -1 for "a unit direction scaled by 1 +- 3 ppm"  *)
+(* (already unit as far as a tolerance-based shortcut can tell, yet not unit: float32 logs, rounded files)        *)
+NearUnit    == {1, -1}
+Decades     == {-100, -30, -12, -8, 0, 8, 30, 100} \cup NearUnit
 VersorFlags == {TRUE, FALSE}
 
 MatClasses  == {"rotation", "rotation+1e-12", "reflection", "scaled-up", "scaled-down", "sheared",
